@@ -221,6 +221,9 @@ func (g *fgen) applyContract(fc *funcContract, callee *ssa.Function, recv *val, 
 	if fc.hasMod {
 		ms := newModset()
 		g.w.declMods(g, fc, ms)
+		if !ms.all {
+			g.applyPrecise(g.preciseLocs(fc, env), ms, st)
+		}
 		if callee != nil && callee.Blocks != nil && !fc.pure {
 			cm := g.w.modsetOf(callee)
 			for k, v := range cm.fresh {
